@@ -147,6 +147,110 @@ def real_history(args):
     return out
 
 
+CHILD2 = ('import sys,time\n'
+          'sys.stdout.write("ready\\n"); sys.stdout.flush()\n'
+          'sys.stdin.readline()\n'
+          'sys.stdout.write("log line one\\nmore of the same kind\\n"); sys.stdout.flush()\n'
+          'time.sleep(0.9)\n'
+          'sys.stdout.write("line two\\n$ "); sys.stdout.flush()\n'
+          'sys.stdin.readline()\n')
+
+
+def real_cancel(args):
+    """a call that gives up before the prompt arrives - the blocking call by its timeout, the awaited one because the caller
+    cancels it from outside (asyncio.wait_for around it / task.cancel()) -, output arriving while no call is outstanding,
+    then the call again: index, before and after of that last call"""
+    how, exact, window, enc = args
+    import asyncio, sys, signal, time
+    import pexpect
+
+    def on_alarm(signum, frame):
+        raise RuntimeError('call did not come back within 20 s')
+    old = signal.signal(signal.SIGALRM, on_alarm)
+    signal.alarm(20)
+    child = None
+    loop = asyncio.new_event_loop()
+    try:
+        child = pexpect.spawn(sys.executable, ['-c', CHILD2], echo=False, timeout=5, encoding=enc)
+        child.expect('ready')
+        child.readline()
+        fn = child.expect_exact if exact else child.expect
+        pat = '$ ' if exact else r'\$ '
+        kw = {'searchwindowsize': window} if window else {}
+        child.sendline('go')
+        if how == 'blocking':
+            try:
+                fn(pat, timeout=0.4, **kw)
+            except pexpect.TIMEOUT:
+                pass
+            time.sleep(1.0)
+            idx = fn(pat, timeout=5, **kw)
+        else:
+            async def main():
+                if how == 'wait_for':
+                    try:
+                        await asyncio.wait_for(fn(pat, timeout=5, async_=True, **kw), 0.4)
+                    except asyncio.TimeoutError:
+                        pass
+                else:
+                    t = asyncio.ensure_future(fn(pat, timeout=5, async_=True, **kw))
+                    await asyncio.sleep(0.4)
+                    t.cancel()
+                    try:
+                        await t
+                    except asyncio.CancelledError:
+                        pass
+                await asyncio.sleep(1.0)            # the caller does other things; the rest of the output arrives meanwhile
+                return await fn(pat, timeout=5, async_=True, **kw)
+            idx = loop.run_until_complete(main())
+        bef = child.before if isinstance(child.before, str) else child.before.decode('latin-1')
+        aft = child.after if isinstance(child.after, str) else child.after.decode('latin-1')
+        return [idx, bef.replace('\r', ''), aft]
+    except Exception as e:
+        return ['raised', type(e).__name__, str(e)[:160]]
+    finally:
+        signal.alarm(0)
+        signal.signal(signal.SIGALRM, old)
+        try:
+            loop.close()
+        except Exception:
+            pass
+        if child is not None:
+            try:
+                child.close(force=True)
+            except Exception:
+                pass
+
+
+def real_cancelled(ctx):
+    from multiprocessing import Pool
+    jobs = []
+    for enc in (None, 'utf-8'):
+        for exact in (True, False):
+            for window in (None, 4):
+                for how in ('blocking', 'wait_for', 'cancel'):
+                    jobs.append((how, exact, window, enc))
+    with Pool(12) as pool:
+        outs = pool.map(real_cancel, jobs)
+    ref = {j[1:]: o for j, o in zip(jobs, outs) if j[0] == 'blocking'}
+    nbad = 0
+    for j, o in zip(jobs, outs):
+        if j[0] == 'blocking':
+            continue
+        if o != ref[j[1:]]:
+            o2, w2 = real_cancel(j), real_cancel(('blocking',) + j[1:])
+            if o2 != w2:
+                nbad += 1
+                ctx.fail('C14:after-a-call-cancelled-from-outside-the-next-call-differs-from-the-blocking-history',
+                         {'real_cancel': {'how': j[0], 'exact': j[1], 'window': j[2], 'encoding': j[3]}},
+                         detail={'got': o2, 'blocking_history_gives': w2}, signature={'mode': 'real-cancel'})
+    if not all(o[0] == 0 for o in ref.values()):
+        raise tlc.TLCError('real cancelled histories: the blocking reference did not complete: %s' % list(ref.values())[:1])
+    ctx.note('%d histories on a real pty child in which the first call gives up before the prompt is there (blocking: its timeout; awaited: '
+             'asyncio.wait_for around it / task.cancel()), the rest of the output arrives with no call outstanding, and the call is made again '
+             '(expect / expect_exact, with and without a search window, bytes / unicode): %d differ from the blocking history' % (len(jobs), nbad))
+
+
 def real_mixed(ctx):
     """the same three-call dialogue with every mix of blocking and awaited calls must give what the all-blocking history gives"""
     from multiprocessing import Pool
@@ -250,6 +354,7 @@ def run(ctx):
             clause = v if v.startswith('C14:') else 'C14:awaited-call-differs-from-contract(' + v + ')'
             ctx.fail(clause, {'meta': t['meta']}, detail={'event_index': at, 'events': t['ev'][:at]}, signature=facts(t, at - 1))
     real_mixed(ctx)
+    real_cancelled(ctx)
     # binding self-test
     cands = [t for t in uniq if verdicts[t['id']][0] == 'ok'
              and any(e['e'] == 'ret' and e['kind'] == 'match' and e['before'] for e in t['ev'])
@@ -284,6 +389,16 @@ def run(ctx):
 
 def replay(ctx):
     d = json.load(open(ctx.replay))
+    if 'real_cancel' in d['case']:
+        c = d['case']['real_cancel']
+        got = real_cancel((c['how'], c['exact'], c['window'], c['encoding']))
+        want = real_cancel(('blocking', c['exact'], c['window'], c['encoding']))
+        print('history with the cancelled call: %s' % got)
+        print('blocking history: %s' % want)
+        if got != want:
+            print('VIOLATION property=C14 replay=%s' % ctx.replay)
+            return 1
+        return 0
     if 'real_mixed' in d['case']:
         c = d['case']['real_mixed']
         got = real_history((c['modes'], c['timeout'], c['encoding']))
